@@ -15,7 +15,7 @@
     trees, no two variables for one leaf, all sources agreeing on the shape at
     every path, outside the shapes of the open findings C20-F3/C20-F4. *)
 From HV Require Import Base.Prelude C20.Model C20.Spec C20.Facts C20.MergeProofs C20.LoadProofs C20.Proofs.
-From HV Require Import C20.SchemaModel Gen.SchemaTables C20.SchemaProofs C20.ScopeProofs C20.MergePanic C20.NamingProofs.
+From HV Require Import C20.SchemaModel Gen.SchemaTables C20.SchemaProofs C20.ScopeProofs C20.MergePanic C20.NamingProofs C20.SplitProofs.
 From Coq Require Import Permutation.
 Open Scope string_scope.
 
@@ -67,6 +67,24 @@ Theorem C20_file_env_equivalent :
                  forall p, view p (Map t) = view p (Map t').
 Proof. exact file_env_equivalent. Qed.
 Print Assumptions C20_file_env_equivalent.
+
+(** ... in particular for every split of the leaves of a configuration [c]:
+    [keep_map sel c] is the file without the leaves selected by [sel] (holes in
+    lists, dropped keys in maps, also inside list elements), [sel_leaves sel]
+    the selected leaves, given by variables in any order *)
+Theorem C20_file_env_equivalent_splits :
+  forall sh sh' to_real pfx d c sel env tenv,
+    perm_fun sh -> perm_fun sh' ->
+    domain to_real pfx d c [] [] ->
+    typed_env to_real (norm_env pfx env) = Some tenv ->
+    Permutation tenv (sel_leaves sel (Map c)) ->
+    guard_F3 (norm_env pfx env) = false -> guard_F4 (norm_env pfx env) = false ->
+    exists t t', load sh to_real false false pfx d (Some (keep_map sel c)) env = Ok t /\
+                 load sh' to_real false false pfx d (Some c) [] = Ok t' /\
+                 Tidy (Map t) /\ Tidy (Map t') /\
+                 forall p, view p (Map t) = view p (Map t').
+Proof. exact file_env_equivalent_splits. Qed.
+Print Assumptions C20_file_env_equivalent_splits.
 
 Theorem C20_merge_later_wins_no_panic :
   forall sh, perm_fun sh -> forall cl dest src,
